@@ -114,8 +114,11 @@ func runC12(c *Ctx) {
 					continue
 				}
 				if ex, ok := v.(*ssa.Extract); ok {
-					if cl, ok := ex.Tuple.(*ssa.Call); ok && callName(cl) == "pkg/utils.SplitString2" {
-						continue
+					// the split operates on the rule text itself, as written, at the first ':'
+					if cl, ok := ex.Tuple.(*ssa.Call); ok && callName(cl) == "pkg/utils.SplitString2" && cl.Call.Args[0] == ssa.Value(f.Params[1]) {
+						if sep, ok := cl.Call.Args[1].(*ssa.Const); ok && sep.Value != nil && sep.Value.ExactString() == `":"` {
+							continue
+						}
 					}
 				}
 				good = false
@@ -370,4 +373,11 @@ func runC12(c *Ctx) {
 		})
 		c.check(good && n > 0, "deepest-value@SubDomainMatcher.Match", f.Pos(), "a visited node replaces the result only if it has a value", why+": passing an intermediate label without a rule forgets the shallower 'domain:' match")
 	}
+
+	// ---------------------------------------------------------------- R7
+	c.rule("R7", "text loading: each line is cleaned by recognised steps only (leading blanks stripped before any cut at a blank, '#' comments), parsed iff non-empty, errors reported", 1)
+	if f := c.fn(relDomain, "", "LoadFromTextReader"); f != nil {
+		checkLineLoader(c, f, func(ci *ssa.Call) bool { return callName(ci) == relDomain+".Load" }, "the rule")
+	}
+
 }
